@@ -450,8 +450,13 @@ static void decode_enum(Src& s, Ctx&, Case& c) {
         }
     }
     uint8_t mac[6] = {0x02, 0x11, 0x22, 0x33, 0x44, 0x55};
-    c.inner.kind = "Ack";
-    c.inner.pdu.reset(new Dot11Ack(Dot11::address_type(mac)));
+    // protected data frame + raw payload: a re-parse that hands the wrong byte range to the 802.11 layer shows up
+    static const uint8_t body[9] = {0xde, 0xad, 0xbe, 0xef, 0x01, 0x02, 0x03, 0x04, 0x05};
+    c.inner.kind = "Data-protected";
+    Dot11Data* d = new Dot11Data(Dot11::address_type(mac), Dot11::address_type(mac));
+    c.inner.pdu.reset(d);
+    d->wep(1);
+    d->inner_pdu(new RawPDU(body, sizeof body));
     c.inner.bytes = c.inner.pdu->serialize();
     c.inner.standalone_ok = true;
     c.attach_first = true;
